@@ -431,6 +431,11 @@ def scanner_shape(run, ctx):
                 m = H.pat_match("{*c}Owned(%s.replace(self.sub_char,{q}))" % X, v)
                 pushes = [ev.a for ev in p.events if ev.kind == "call" and m and ev.a == "%s.push(self.sub_char)" % m.group("q")]
                 others = [ev.a for ev in p.events if ev.kind == "call" and m and ev.a.startswith("%s.push" % m.group("q")) and ev.a not in pushes]
+                # the replacement text: two pushes of the character, or the character repeated twice and collected
+                lets_q = {ev.a: ev.b for ev in p.events if ev.kind == "let"}
+                rep2 = bool(m) and lets_q.get(m.group("q")) in ("repeat(self.sub_char).take(2).collect()", "std::iter::repeat(self.sub_char).take(2).collect()", "core::iter::repeat(self.sub_char).take(2).collect()", "iter::repeat(self.sub_char).take(2).collect()")
+                if rep2 and not others and not pushes:
+                    continue
                 if not m or len(pushes) != 2 or others:
                     bad = "every substitution character must be replaced by exactly two of them (found %s with pushes %s)" % (v, pushes + others)
         if bad or seen != {True, False}:
